@@ -1,17 +1,28 @@
+(* C01, composed: reading the BYTES of a serialised file returns exactly the
+   values its raw data blocks encode, concatenated in file order, per channel.
+
+   Layers composed here (all proved elsewhere, none re-assumed):
+     FileSynProofs.rd_metadata_ser    bytes -> syntax for the metadata pass
+     LayoutProofs.*_segment_roundtrip raw data decoders invert the encoders
+   and added here:
+     R1 sm_run_trace / sm_segment_positions   positions, chunk counts, value
+                                              counts, key uniqueness, version
+     R2 read_segment_ser                      tag check + cursor position
+     R3 seg_encodes / seg_encodes_read        one predicate for both layouts
+     R4 receive_chunks_concat                 receivers concatenate
+     R5 rd_eager_ser                          the eager data pass
+     R6 read_correct                          rd_all = the expected observation
+   See Props/C01_read.v for the statements and what is not covered. *)
 From Coq Require Import List ZArith Bool Lia ZifyBool.
 From Coq Require Import Init.Byte.
 Import ListNotations.
 From NpTdms Require Import Base.Bytes Base.Res Model.Tokens Model.TokensWf Model.SegState
      Model.Layout Model.Reader Model.FileSyn Proofs.TokensRoundtrip Proofs.SegStateProofs
-     Proofs.LayoutProofs Proofs.FileSynProofs.
+     Proofs.LayoutProofs Proofs.FileSynProofs Proofs.SegStateInherit.
 Local Open Scope Z_scope.
 Ltac Zify.zify_post_hook ::= Z.to_euclidean_division_equations.
 
 Definition fseg_len (s : fseg) : Z := 28 + blen (fs_meta_bytes s) + blen (fs_data s).
-
-Definition set_ver (st : rstate) (v : Z) : rstate :=
-  mkRstate (rs_segments st) (rs_prev_objs st) (rs_om st) (rs_cache st)
-           (match rs_version st with Some v0 => Some v0 | None => Some v end).
 
 Lemma sm_loop_cons_inv s r w pos ps pi st stf :
   sm_loop (s :: r) w pos ps pi st = Ok stf ->
@@ -61,30 +72,160 @@ Inductive segs_at : Z -> list fseg -> list segment -> Prop :=
 | segs_at_cons pos s r g gs :
     seg_at pos s g -> segs_at (pos + fseg_len s) r gs -> segs_at pos (s :: r) (g :: gs).
 
-Lemma sm_loop_segments : forall segs w pos ps pi st stf,
+(* ---- the metadata pass counts values: om_len ---- *)
+
+(* number of values the metadata pass credits to [p] for one segment *)
+Definition obj_total (p : bytes) (objs : list sobj) (n : Z) (f : option (alist Z)) : Z :=
+  zsum (map (fun o => if bytes_eqb p (so_path o) then seg_values o n f else 0) objs).
+
+Definition seg_total (p : bytes) (g : segment) : Z :=
+  obj_total p (sg_objs g) (sg_nchunks g) (sg_final g).
+
+Lemma get_ometa_aset p k m om :
+  get_ometa p (aset k m om) = if bytes_eqb p k then m else get_ometa p om.
+Proof. unfold get_ometa. rewrite alookup_aset. destruct (bytes_eqb p k); reflexivity. Qed.
+
+Lemma update_ometa_len m o n f m' :
+  update_ometa m o n f = Ok m' -> om_len m' = om_len m + seg_values o n f.
+Proof.
+  unfold update_ometa. cbv zeta.
+  destruct (_ && _); [discriminate|].
+  destruct (so_daqmx o) as [q|].
+  - destruct (om_scalers m) as [st0|].
+    + destruct (scaler_types_eqb st0 (scaler_types q)); [|discriminate].
+      intros H. injection H as <-. reflexivity.
+    + intros H. injection H as <-. reflexivity.
+  - intros H. injection H as <-. reflexivity.
+Qed.
+
+Lemma update_object_metadata_len : forall objs n f prev om prev' om',
+    update_object_metadata objs n f prev om = Ok (prev', om') ->
+    forall p, om_len (get_ometa p om') = om_len (get_ometa p om) + obj_total p objs n f.
+Proof.
+  induction objs as [|o objs IH]; intros n f prev om prev' om' H p.
+  - cbn [update_object_metadata] in H. injection H as _ <-. unfold obj_total. cbn [map zsum fold_right]. lia.
+  - cbn [update_object_metadata] in H.
+    destruct (update_ometa (get_ometa (so_path o) om) o n f) as [m|e] eqn:Em; cbn [bind] in H; [|discriminate].
+    rewrite (IH _ _ _ _ _ _ H p). rewrite get_ometa_aset.
+    unfold obj_total. cbn [map zsum fold_right]. fold (zsum (map (fun o0 => if bytes_eqb p (so_path o0) then seg_values o0 n f else 0) objs)).
+    destruct (bytes_eqb p (so_path o)) eqn:E.
+    + apply bytes_eqb_eq in E. subst p. rewrite (update_ometa_len _ _ _ _ _ Em). lia.
+    + lia.
+Qed.
+
+Lemma update_object_properties_len props : forall om p,
+    om_len (get_ometa p (update_object_properties props om)) = om_len (get_ometa p om).
+Proof.
+  unfold update_object_properties.
+  induction props as [|[k ps] props IH]; intros om p; [reflexivity|].
+  cbn [fold_left fst snd]. rewrite IH, get_ometa_aset.
+  destruct (bytes_eqb p k) eqn:E; [|reflexivity].
+  apply bytes_eqb_eq in E. subst k. reflexivity.
+Qed.
+
+Lemma alookup_none_not_in {V} (k : bytes) (l : alist V) :
+  alookup k l = None -> ~ In k (map fst l).
+Proof.
+  induction l as [|[k' v'] r IH]; cbn [alookup map fst In]; intros H; [tauto|].
+  destruct (bytes_eqb k k') eqn:E; [discriminate|].
+  apply bytes_eqb_neq in E. intros [Heq|Hin]; [congruence|]. exact (IH H Hin).
+Qed.
+
+Lemma aset_keys_nodup {V} (k : bytes) (v : V) (l : alist V) :
+  NoDup (map fst l) -> NoDup (map fst (aset k v l)).
+Proof.
+  intros H. destruct (alookup k l) as [x|] eqn:E.
+  - rewrite aset_keys_in by (rewrite E; discriminate). exact H.
+  - rewrite aset_keys_new by exact E.
+    apply NoDup_app_intro; [exact H|repeat constructor; intros []|].
+    intros x Hx [<-|[]]. exact (alookup_none_not_in _ _ E Hx).
+Qed.
+
+Lemma alookup_in_nodup {V} (k : bytes) (v : V) (l : alist V) :
+  NoDup (map fst l) -> In (k, v) l -> alookup k l = Some v.
+Proof.
+  induction l as [|[k' v'] r IH]; cbn [alookup map fst In]; intros Hnd Hin; [contradiction|].
+  inversion Hnd as [|x y Hnin Hnd']; subst x y.
+  destruct Hin as [Heq|Hin].
+  - injection Heq as -> ->. rewrite bytes_eqb_refl. reflexivity.
+  - destruct (bytes_eqb k k') eqn:E; [|apply IH; assumption].
+    apply bytes_eqb_eq in E. subst k'. exfalso. apply Hnin.
+    apply (in_map fst r (k, v)). exact Hin.
+Qed.
+
+Lemma update_object_metadata_nodup : forall objs n f prev om prev' om',
+    update_object_metadata objs n f prev om = Ok (prev', om') ->
+    NoDup (map fst om) -> NoDup (map fst om').
+Proof.
+  induction objs as [|o objs IH]; intros n f prev om prev' om' H Hnd.
+  - cbn [update_object_metadata] in H. injection H as _ <-. exact Hnd.
+  - cbn [update_object_metadata] in H.
+    destruct (update_ometa (get_ometa (so_path o) om) o n f) as [m|e]; cbn [bind] in H; [|discriminate].
+    apply (IH _ _ _ _ _ _ H). apply aset_keys_nodup. exact Hnd.
+Qed.
+
+Lemma update_object_properties_nodup props : forall om,
+    NoDup (map fst om) -> NoDup (map fst (update_object_properties props om)).
+Proof.
+  unfold update_object_properties.
+  induction props as [|[k ps] props IH]; intros om Hnd; [exact Hnd|].
+  cbn [fold_left fst snd]. apply IH. apply aset_keys_nodup. exact Hnd.
+Qed.
+
+(* everything the later steps need to know about a successful run of the
+   metadata pass on syntax, in one induction *)
+Lemma sm_loop_trace : forall segs w pos ps pi st stf,
     sm_loop segs w pos ps pi st = Ok stf ->
-    exists gs, rs_segments stf = rs_segments st ++ gs /\ segs_at pos segs gs.
+    exists gs,
+      rs_segments stf = rs_segments st ++ gs /\
+      segs_at pos segs gs /\
+      (forall p, om_len (get_ometa p (rs_om stf)) =
+                 om_len (get_ometa p (rs_om st)) + zsum (map (seg_total p) gs)) /\
+      (NoDup (map fst (rs_om st)) -> NoDup (map fst (rs_om stf))) /\
+      rs_version stf = match rs_version st with
+                       | Some v => Some v
+                       | None => option_map fs_version (hd_error segs)
+                       end.
 Proof.
   induction segs as [|s r IH]; intros w pos ps pi st stf H.
   - rewrite sm_loop_nil in H. injection H as <-. exists []. rewrite app_nil_r.
-    split; [reflexivity|constructor].
+    split; [reflexivity|]. split; [constructor|]. split; [intros p; cbn [map zsum fold_right]; lia|].
+    split; [tauto|]. destruct (rs_version st); reflexivity.
   - apply sm_loop_cons_inv in H.
     destruct H as (objs & props & idx & cache & nch & fin & po & om & Hro & Hcc & Hum & Hloop).
-    apply IH in Hloop. destruct Hloop as (gs & Hsegs & Hat).
-    cbn [rs_segments] in Hsegs. rewrite <- app_assoc in Hsegs. cbn [app] in Hsegs.
-    eexists. split; [exact Hsegs|].
-    constructor; [|exact Hat].
-    unfold seg_at. cbn [sg_pos sg_toc sg_data sg_next sg_incomplete sg_objs sg_nchunks sg_final].
-    unfold fseg_len. repeat split; try reflexivity; try lia. exact Hcc.
+    apply IH in Hloop. destruct Hloop as (gs & Hsegs & Hat & Hlen & Hnd & Hver).
+    cbn [rs_segments rs_om rs_version] in Hsegs, Hlen, Hnd, Hver.
+    rewrite <- app_assoc in Hsegs. cbn [app] in Hsegs.
+    eexists. split; [exact Hsegs|]. split; [|split; [|split]].
+    + constructor; [|exact Hat].
+      unfold seg_at. cbn [sg_pos sg_toc sg_data sg_next sg_incomplete sg_objs sg_nchunks sg_final].
+      unfold fseg_len. repeat split; try reflexivity; try lia. exact Hcc.
+    + intros p. rewrite Hlen, update_object_properties_len.
+      rewrite (update_object_metadata_len _ _ _ _ _ _ _ Hum p).
+      cbn [map zsum fold_right]. unfold seg_total at 2. cbn [sg_objs sg_nchunks sg_final].
+      fold (zsum (map (seg_total p) gs)). lia.
+    + intros Hnd0. apply Hnd. apply update_object_properties_nodup.
+      apply (update_object_metadata_nodup _ _ _ _ _ _ _ Hum). exact Hnd0.
+    + rewrite Hver. cbn [hd_error option_map]. destruct (rs_version st); reflexivity.
 Qed.
 
-Theorem sm_segment_positions segs w st :
-  sm_run segs w = Ok st -> segs_at 0 segs (rs_segments st).
+Theorem sm_run_trace segs w st :
+  sm_run segs w = Ok st ->
+  segs_at 0 segs (rs_segments st) /\
+  (forall p, om_len (get_ometa p (rs_om st)) = zsum (map (seg_total p) (rs_segments st))) /\
+  NoDup (map fst (rs_om st)) /\
+  rs_version st = option_map fs_version (hd_error segs).
 Proof.
-  unfold sm_run. intros H. apply sm_loop_segments in H.
-  destruct H as (gs & Hsegs & Hat). cbn [rs_segments rstate0 app] in Hsegs.
-  rewrite Hsegs. exact Hat.
+  unfold sm_run. intros H. apply sm_loop_trace in H.
+  destruct H as (gs & Hsegs & Hat & Hlen & Hnd & Hver). cbn [rs_segments rs_om rs_version rstate0 app] in *.
+  rewrite Hsegs. split; [exact Hat|]. split; [|split; [|exact Hver]].
+  - intros p. rewrite Hlen. unfold get_ometa. cbn [alookup ometa0 om_len]. lia.
+  - apply Hnd. constructor.
 Qed.
+
+Corollary sm_segment_positions segs w st :
+  sm_run segs w = Ok st -> segs_at 0 segs (rs_segments st).
+Proof. intros H. apply sm_run_trace in H. tauto. Qed.
 
 Lemma segs_at_length pos segs gs : segs_at pos segs gs -> length segs = length gs.
 Proof. induction 1; cbn [length]; congruence. Qed.
@@ -488,3 +629,669 @@ Proof.
     destruct (ch_dtype c) as [dt|] eqn:Edt; [|reflexivity].
     cbn [cdata_consistent]. apply Z.eqb_eq. apply Hlen; [exact Hc|]. rewrite Edt. discriminate.
 Qed.
+
+(* ---- boolean versions of the hypotheses about the hierarchy (sound) ---- *)
+
+Definition typed_channel_b (c : channel) : bool :=
+  match ch_dtype c with Some _ => true | None => false end.
+
+Definition data_paths_are_channels_b (h : hierarchy) (chunks : list chunk) : bool :=
+  forallb (fun c : chunk =>
+             forallb (fun kv => existsb (fun ch => bytes_eqb (ch_path ch) (fst kv) && typed_channel_b ch)
+                                        (all_channels h)) c) chunks.
+
+Lemma data_paths_are_channels_b_sound h chunks :
+  data_paths_are_channels_b h chunks = true -> data_paths_are_channels h chunks.
+Proof.
+  unfold data_paths_are_channels_b. intros H c kv Hc Hkv.
+  rewrite forallb_forall in H. specialize (H c Hc). rewrite forallb_forall in H.
+  specialize (H kv Hkv). apply existsb_exists in H. destruct H as (ch & Hch & Hb).
+  apply andb_prop in Hb. destruct Hb as [Hp Hty]. apply bytes_eqb_eq in Hp.
+  exists ch. split; [exact Hch|]. split; [exact Hp|].
+  unfold typed_channel_b in Hty. destruct (ch_dtype ch); [discriminate|discriminate].
+Qed.
+
+Definition no_daqmx_channels_b (h : hierarchy) : bool :=
+  forallb (fun ch => negb (oz_eqb (ch_dtype ch) (Some T_DAQMX))) (all_channels h).
+
+Lemma no_daqmx_channels_b_sound h : no_daqmx_channels_b h = true -> no_daqmx_channels h.
+Proof.
+  unfold no_daqmx_channels_b. intros H ch Hch E. rewrite forallb_forall in H.
+  specialize (H ch Hch). rewrite E in H. cbn [oz_eqb] in H. rewrite Z.eqb_refl in H. discriminate.
+Qed.
+
+Fixpoint nodup_paths_b (l : list bytes) : bool :=
+  match l with
+  | [] => true
+  | x :: r => negb (existsb (bytes_eqb x) r) && nodup_paths_b r
+  end.
+
+Lemma nodup_paths_b_sound l : nodup_paths_b l = true -> NoDup l.
+Proof.
+  induction l as [|x r IH]; intros H; [constructor|].
+  cbn [nodup_paths_b] in H. apply andb_prop in H. destruct H as [Hx Hr].
+  constructor; [|apply IH; exact Hr].
+  intros Hin. apply negb_true_iff in Hx.
+  assert (Hex : existsb (bytes_eqb x) r = true).
+  { apply existsb_exists. exists x. split; [exact Hin|apply bytes_eqb_refl]. }
+  rewrite Hex in Hx. discriminate.
+Qed.
+
+Definition channel_paths_distinct_b (h : hierarchy) : bool :=
+  nodup_paths_b (map ch_path (all_channels h)).
+
+Lemma channel_paths_distinct_b_sound h : channel_paths_distinct_b h = true -> channel_paths_distinct h.
+Proof. apply nodup_paths_b_sound. Qed.
+
+Definition lengths_consistent_b (h : hierarchy) (chunks : list chunk) : bool :=
+  forallb (fun c => negb (typed_channel_b c) ||
+                    (Z.of_nat (length (chan_values (ch_path c) chunks)) =? ch_len c))
+          (all_channels h).
+
+Lemma lengths_consistent_b_sound h chunks :
+  lengths_consistent_b h chunks = true -> lengths_consistent h chunks.
+Proof.
+  unfold lengths_consistent_b. intros H c Hc Hty. rewrite forallb_forall in H.
+  specialize (H c Hc). unfold typed_channel_b in H.
+  destruct (ch_dtype c); [|contradiction]. cbn [negb orb] in H. apply Z.eqb_eq. exact H.
+Qed.
+
+(* ---- the encoded chunks hold exactly the credited number of values ---- *)
+
+(* values per chunk (contiguous) or per row set (interleaved) credited to [p] *)
+Definition path_count (p : bytes) (w : sobj -> Z) (objs : list sobj) : Z :=
+  zsum (map (fun o => if bytes_eqb p (so_path o) then w o else 0) objs).
+
+Lemma path_count_cons p w o objs :
+  path_count p w (o :: objs) = (if bytes_eqb p (so_path o) then w o else 0) + path_count p w objs.
+Proof. reflexivity. Qed.
+
+Lemma obj_total_data_objs p n f : forall objs,
+    obj_total p objs n f = obj_total p (data_objs objs) n f.
+Proof.
+  unfold obj_total, data_objs.
+  induction objs as [|o objs IH]; [reflexivity|].
+  cbn [filter map zsum fold_right].
+  destruct (so_has_data o) eqn:E.
+  - cbn [map zsum fold_right]. unfold zsum in IH. rewrite IH. reflexivity.
+  - unfold zsum in IH. rewrite IH. unfold seg_values. rewrite E. cbn [negb].
+    destruct (bytes_eqb p (so_path o)); reflexivity.
+Qed.
+
+Lemma obj_total_no_final p n : forall dobjs,
+    Forall (fun o => so_has_data o = true) dobjs ->
+    obj_total p dobjs n None = n * path_count p so_nvals dobjs.
+Proof.
+  unfold obj_total, path_count.
+  induction 1 as [|o dobjs Ho _ IH]; cbn [map zsum fold_right]; [lia|].
+  unfold zsum in IH. rewrite IH. unfold seg_values. rewrite Ho. cbn [negb].
+  destruct (bytes_eqb p (so_path o)); lia.
+Qed.
+
+Lemma data_objs_have_data objs : Forall (fun o => so_has_data o = true) (data_objs objs).
+Proof. unfold data_objs. apply Forall_forall. intros o Ho. apply filter_In in Ho. tauto. Qed.
+
+Lemma chunk_values_cons p k d c :
+  chunk_values p ((k, d) :: c) = entry_values p (k, d) ++ chunk_values p c.
+Proof. reflexivity. Qed.
+
+(* one contiguous chunk *)
+Lemma chunk_of_count p : forall dobjs vss,
+    Forall2 (fun o vs => vals_ok (so_nvals o) o vs) dobjs vss ->
+    Z.of_nat (length (chunk_values p (chunk_of (combine dobjs vss)))) = path_count p so_nvals dobjs.
+Proof.
+  induction 1 as [|o vs dobjs vss [Hn _] _ IH]; [reflexivity|].
+  cbn [combine chunk_of map fst snd]. rewrite chunk_values_cons, app_length, Nat2Z.inj_add.
+  fold (chunk_of (combine dobjs vss)). rewrite IH, path_count_cons.
+  unfold entry_values. cbn [fst snd]. destruct (bytes_eqb p (so_path o)); [lia|reflexivity].
+Qed.
+
+Lemma chan_values_length_const p (k : Z) : forall chunks : list chunk,
+    Forall (fun c => Z.of_nat (length (chunk_values p c)) = k) chunks ->
+    Z.of_nat (length (chan_values p chunks)) = Z.of_nat (length chunks) * k.
+Proof.
+  induction 1 as [|c chunks Hc _ IH]; [reflexivity|].
+  rewrite chan_values_cons, app_length, Nat2Z.inj_add, IH, Hc. cbn [length]. lia.
+Qed.
+
+(* the single chunk of an interleaved segment *)
+Lemma cols_of_count p : forall dobjs rows,
+    Z.of_nat (length (chunk_values p (cols_of dobjs rows))) =
+    path_count p (fun _ => Z.of_nat (length rows)) dobjs.
+Proof.
+  induction dobjs as [|o dobjs IH]; intros rows; [reflexivity|].
+  cbn [cols_of]. rewrite chunk_values_cons, app_length, Nat2Z.inj_add, IH, path_count_cons.
+  unfold entry_values. cbn [fst snd]. rewrite map_length.
+  destruct (bytes_eqb p (so_path o)); [rewrite map_length; reflexivity|reflexivity].
+Qed.
+
+Lemma path_count_ext p w w' objs :
+  Forall (fun o => w o = w' o) objs -> path_count p w objs = path_count p w' objs.
+Proof.
+  unfold path_count. induction 1 as [|o objs Ho _ IH]; [reflexivity|].
+  cbn [map zsum fold_right]. unfold zsum in IH. rewrite IH, Ho. reflexivity.
+Qed.
+
+Lemma path_count_scale p n w objs :
+  path_count p (fun o => n * w o) objs = n * path_count p w objs.
+Proof.
+  unfold path_count. induction objs as [|o objs IH]; cbn [map zsum fold_right]; [lia|].
+  unfold zsum in IH. rewrite IH. destruct (bytes_eqb p (so_path o)); lia.
+Qed.
+
+Theorem seg_encodes_count g data chunks p :
+  seg_encodes g data chunks ->
+  calculate_chunks (sg_toc g) (sg_incomplete g) (sg_objs g) (blen data) = Ok (sg_nchunks g, sg_final g) ->
+  Z.of_nat (length (chan_values p chunks)) = seg_total p g.
+Proof.
+  intros Henc Hcc. unfold seg_total. rewrite obj_total_data_objs.
+  destruct Henc as [Hd Hdata | css Hlay Hpos Hnd Hok Hds Hdata
+                    | nv m rows Hlay Hne Hnv Hm Hobjs Hsz Hnd Hrows Hlen Hdata].
+  - rewrite Hd. reflexivity.
+  - subst data.
+    pose proof (seg_layout_contig_chunk_size g Hlay) as Hcs.
+    rewrite (enc_chunks_blen _ _ css Hds) in Hcc.
+    rewrite (calculate_chunks_exact _ _ _ _ _ Hcs Hpos) in Hcc by lia.
+    injection Hcc as Hn Hf. rewrite <- Hf, <- Hn.
+    rewrite (obj_total_no_final p _ _ (data_objs_have_data _)).
+    rewrite (chan_values_length_const p (path_count p so_nvals (data_objs (sg_objs g)))).
+    + rewrite map_length. reflexivity.
+    + apply Forall_map. eapply Forall_impl; [|exact Hok]. intros vss Hvss. cbn beta.
+      apply chunk_of_count. exact Hvss.
+  - subst data.
+    pose proof (seg_layout_interleaved_chunk_size g Hlay) as Hcs.
+    pose proof (width_pos _ Hne Hsz) as Hw.
+    pose proof (interleaved_chunk_bytes nv _ Hobjs) as Hcb.
+    rewrite (enc_rows_blen _ _ rows Hrows), Hlen in Hcc.
+    replace (nv * m * zsum (map size_or0 (data_objs (sg_objs g))))
+      with (m * zsum (map so_dsize (data_objs (sg_objs g)))) in Hcc by nia.
+    rewrite (calculate_chunks_exact _ _ _ _ _ Hcs) in Hcc by nia.
+    injection Hcc as Hn Hf. rewrite <- Hf, <- Hn.
+    rewrite (obj_total_no_final p _ _ (data_objs_have_data _)).
+    cbn [chan_values flat_map]. rewrite app_nil_r, cols_of_count, Hlen.
+    rewrite (path_count_ext p (fun _ => nv * m) (fun o => m * so_nvals o)).
+    + apply path_count_scale.
+    + eapply Forall_impl; [|exact Hobjs]. intros o [Ho _]. cbn beta. rewrite Ho. lia.
+Qed.
+
+(* ---- the hierarchy's channels come from the per-object metadata ---- *)
+
+Lemma In_aset {V} (k k0 : bytes) (v x : V) (l : alist V) :
+  In (k, v) (aset k0 x l) -> (k = k0 /\ v = x) \/ In (k, v) l.
+Proof.
+  induction l as [|[k' v'] r IH]; cbn [aset In].
+  - intros [H|[]]. injection H as <- <-. left. split; reflexivity.
+  - destruct (bytes_eqb k0 k') eqn:E.
+    + apply bytes_eqb_eq in E. subst k'. intros [H|H].
+      * injection H as <- <-. left. split; reflexivity.
+      * right. right. exact H.
+    + intros [H|H]; [right; left; exact H|].
+      destruct (IH H) as [H'|H']; [left; exact H'|right; right; exact H'].
+Qed.
+
+Lemma alookup_In {V} (k : bytes) (v : V) (l : alist V) : alookup k l = Some v -> In (k, v) l.
+Proof.
+  induction l as [|[k' v'] r IH]; cbn [alookup In]; [discriminate|].
+  destruct (bytes_eqb k k') eqn:E.
+  - apply bytes_eqb_eq in E. subst k'. intros H. injection H as <-. left. reflexivity.
+  - intros H. right. apply IH. exact H.
+Qed.
+
+Definition chan_of_om (g c : bytes) (m : ometa) : channel :=
+  mkChan g c (path_to_string (Some g) (Some c)) (om_dtype m) (om_scalers m) (om_len m) (om_props m).
+
+Lemma hier_scan_cons pstr m r root gprops gchans :
+  hier_scan ((pstr, m) :: r) root gprops gchans =
+  match path_from_string pstr with
+  | inl _ => Err EValue
+  | inr (None, _) => hier_scan r root gprops gchans
+  | inr (Some g, None) => hier_scan r root (aset g (om_props m) gprops) gchans
+  | inr (Some g, Some c) =>
+    hier_scan r root gprops
+              (aset g ((match alookup g gchans with Some l => l | None => [] end) ++ [chan_of_om g c m]) gchans)
+  end.
+Proof. reflexivity. Qed.
+
+Lemma hier_scan_chans (P : bytes -> channel -> Prop) :
+  forall om root gprops gchans root' gprops' gchans',
+    hier_scan om root gprops gchans = Ok (root', gprops', gchans') ->
+    (forall pstr m g c, In (pstr, m) om -> path_from_string pstr = inr (Some g, Some c) ->
+                        P g (chan_of_om g c m)) ->
+    (forall k l ch, In (k, l) gchans -> In ch l -> P k ch) ->
+    (forall k l ch, In (k, l) gchans' -> In ch l -> P k ch).
+Proof.
+  induction om as [|[pstr m] r IH]; intros root gprops gchans root' gprops' gchans' H Hom Hacc.
+  - cbn [hier_scan] in H. injection H as _ _ <-. exact Hacc.
+  - rewrite hier_scan_cons in H.
+    assert (Hom' : forall pstr0 m0 g c, In (pstr0, m0) r -> path_from_string pstr0 = inr (Some g, Some c) ->
+                                        P g (chan_of_om g c m0)).
+    { intros pstr0 m0 g c Hin. apply Hom. right. exact Hin. }
+    destruct (path_from_string pstr) as [e|[[g|] [c|]]] eqn:Ep; try discriminate.
+    + refine (IH _ _ _ _ _ _ H Hom' _). intros k l ch Hkl Hch.
+      apply In_aset in Hkl. destruct Hkl as [[-> ->]|Hkl]; [|exact (Hacc k l ch Hkl Hch)].
+      apply in_app_or in Hch. destruct Hch as [Hch|[<-|[]]].
+      * destruct (alookup g gchans) as [l0|] eqn:El; [|contradiction].
+        apply alookup_In in El. exact (Hacc g l0 ch El Hch).
+      * apply (Hom pstr m g c); [left; reflexivity|exact Ep].
+    + exact (IH _ _ _ _ _ _ H Hom' Hacc).
+    + exact (IH _ _ _ _ _ _ H Hom' Hacc).
+    + exact (IH _ _ _ _ _ _ H Hom' Hacc).
+Qed.
+
+Lemma hier_scan_gprops_nodup : forall om root gprops gchans root' gprops' gchans',
+    hier_scan om root gprops gchans = Ok (root', gprops', gchans') ->
+    NoDup (map fst gprops) -> NoDup (map fst gprops').
+Proof.
+  induction om as [|[pstr m] r IH]; intros root gprops gchans root' gprops' gchans' H Hnd.
+  - cbn [hier_scan] in H. injection H as _ <- _. exact Hnd.
+  - rewrite hier_scan_cons in H.
+    destruct (path_from_string pstr) as [e|[[g|] [c|]]]; try discriminate.
+    + exact (IH _ _ _ _ _ _ H Hnd).
+    + refine (IH _ _ _ _ _ _ H _). apply aset_keys_nodup. exact Hnd.
+    + exact (IH _ _ _ _ _ _ H Hnd).
+    + exact (IH _ _ _ _ _ _ H Hnd).
+Qed.
+
+Lemma chans_dict_gen : forall (l : list channel) acc,
+    NoDup (map fst acc) ->
+    (forall n ch, In (n, ch) acc -> ch_name ch = n) ->
+    let d := fold_left (fun acc c => aset (ch_name c) c acc) l acc in
+    NoDup (map fst d) /\
+    forall n ch, In (n, ch) d -> ch_name ch = n /\ (In (n, ch) acc \/ In ch l).
+Proof.
+  induction l as [|c l IH]; intros acc Hnd Hacc; cbn zeta.
+  - split; [exact Hnd|]. intros n ch H. split; [exact (Hacc n ch H)|left; exact H].
+  - cbn [fold_left].
+    destruct (IH (aset (ch_name c) c acc)) as [Hnd' Hin'].
+    + apply aset_keys_nodup. exact Hnd.
+    + intros n ch H. apply In_aset in H. destruct H as [[-> ->]|H]; [reflexivity|exact (Hacc n ch H)].
+    + cbn zeta in Hnd', Hin'. split; [exact Hnd'|]. intros n ch H.
+      destruct (Hin' n ch H) as [Hn [Ha|Hl]].
+      * split; [exact Hn|]. apply In_aset in Ha.
+        destruct Ha as [[_ ->]|Ha]; [right; left; reflexivity|left; exact Ha].
+      * split; [exact Hn|]. right. right. exact Hl.
+Qed.
+
+Lemma chans_dict_spec l :
+  NoDup (map fst (chans_dict l)) /\
+  forall n ch, In (n, ch) (chans_dict l) -> ch_name ch = n /\ In ch l.
+Proof.
+  unfold chans_dict. destruct (chans_dict_gen l []) as [Hnd Hin].
+  - constructor.
+  - intros n ch [].
+  - cbn zeta in Hnd, Hin. split; [exact Hnd|]. intros n ch H.
+    destruct (Hin n ch H) as [Hn [[]|Hl]]. split; assumption.
+Qed.
+
+Lemma chans_dict_In l n ch : In (n, ch) (chans_dict l) -> In ch l.
+Proof. intros H. apply (proj2 (chans_dict_spec l)) in H. tauto. Qed.
+
+(* a group of the hierarchy: its channel dictionary has distinct keys, each
+   key is the channel's name, and each channel sits in the scan's list for
+   this group's name *)
+Definition group_ok (gchans : alist (list channel)) (kg : bytes * group) : Prop :=
+  NoDup (map fst (g_chans (snd kg))) /\
+  forall n ch, In (n, ch) (g_chans (snd kg)) ->
+               ch_name ch = n /\ exists l, In (fst kg, l) gchans /\ In ch l.
+
+Lemma groups_fold_ok (gchans : alist (list channel)) : forall (rest : alist (list channel)) acc,
+    incl rest gchans ->
+    NoDup (map fst acc) ->
+    Forall (group_ok gchans) acc ->
+    let groups := fold_left (fun acc kv =>
+                               match alookup (fst kv) acc with
+                               | Some _ => acc
+                               | None => acc ++ [(fst kv, mkGroup (fst kv) [] (chans_dict (snd kv)))]
+                               end) rest acc in
+    NoDup (map fst groups) /\ Forall (group_ok gchans) groups.
+Proof.
+  induction rest as [|[k l] rest IH]; intros acc Hincl Hnd Hacc; cbn zeta; [split; assumption|].
+  cbn [fold_left fst snd]. apply IH.
+  - intros x Hx. apply Hincl. right. exact Hx.
+  - destruct (alookup k acc) eqn:E; [exact Hnd|].
+    rewrite map_app. cbn [map fst]. apply NoDup_app_intro; [exact Hnd|repeat constructor; intros []|].
+    intros x Hx [<-|[]]. exact (alookup_none_not_in _ _ E Hx).
+  - destruct (alookup k acc); [exact Hacc|].
+    apply Forall_app. split; [exact Hacc|]. constructor; [|constructor].
+    unfold group_ok. cbn [fst snd g_chans]. destruct (chans_dict_spec l) as [Hnd' Hin'].
+    split; [exact Hnd'|]. intros n ch Hin. destruct (Hin' n ch Hin) as [Hn Hl].
+    split; [exact Hn|]. exists l. split; [apply Hincl; left; reflexivity|exact Hl].
+Qed.
+
+(* what build_hierarchy makes a channel from *)
+Definition chan_from_om (om : alist ometa) (ch : channel) : Prop :=
+  exists pstr m, In (pstr, m) om /\
+                 path_from_string pstr = inr (Some (ch_group ch), Some (ch_name ch)) /\
+                 ch = chan_of_om (ch_group ch) (ch_name ch) m.
+
+Theorem build_hierarchy_structure om h :
+  build_hierarchy om = Ok h ->
+  NoDup (map fst (h_groups h)) /\
+  Forall (fun kg => NoDup (map fst (g_chans (snd kg))) /\
+                    forall n ch, In (n, ch) (g_chans (snd kg)) ->
+                                 ch_name ch = n /\ ch_group ch = fst kg /\ chan_from_om om ch)
+         (h_groups h).
+Proof.
+  unfold build_hierarchy. cbv zeta.
+  destruct (hier_scan om _ [] []) as [[[root' gprops] gchans]|e] eqn:Hscan; cbn [bind]; [|discriminate].
+  intros H. injection H as <-. cbn [h_groups].
+  pose proof (hier_scan_gprops_nodup _ _ _ _ _ _ _ Hscan (NoDup_nil _)) as Hgp.
+  destruct (groups_fold_ok gchans gchans
+              (map (fun kv => (fst kv, mkGroup (fst kv) (snd kv)
+                                  (chans_dict (match alookup (fst kv) gchans with
+                                               | Some l => l | None => [] end))))
+                   gprops)) as [Hnd Hall].
+  - apply incl_refl.
+  - rewrite map_map. cbn [fst]. exact Hgp.
+  - apply Forall_map. apply Forall_forall. intros [k0 ps] _. unfold group_ok. cbn [fst snd g_chans].
+    destruct (chans_dict_spec (match alookup k0 gchans with Some l => l | None => [] end)) as [Hnd' Hin'].
+    split; [exact Hnd'|]. intros n ch Hin. destruct (Hin' n ch Hin) as [Hn Hl].
+    split; [exact Hn|]. destruct (alookup k0 gchans) as [l|] eqn:El; [|contradiction].
+    exists l. split; [apply alookup_In; exact El|exact Hl].
+  - cbn zeta in Hnd, Hall. split; [exact Hnd|].
+    eapply Forall_impl; [|exact Hall]. intros [k grp] [Hnd' Hin']. cbn [fst snd] in *.
+    split; [exact Hnd'|]. intros n ch Hin. destruct (Hin' n ch Hin) as [Hn (l & Hkl & Hchl)].
+    split; [exact Hn|].
+    refine (hier_scan_chans (fun k ch => ch_group ch = k /\ chan_from_om om ch)
+                            om _ [] [] root' gprops gchans Hscan _ _ k l ch Hkl Hchl).
+    + intros pstr m g c Hin0 Hp. split; [reflexivity|].
+      exists pstr, m. split; [exact Hin0|]. split; [exact Hp|reflexivity].
+    + intros k0 l0 ch0 [].
+Qed.
+
+Theorem build_hierarchy_channels om h :
+  build_hierarchy om = Ok h -> forall ch, In ch (all_channels h) -> chan_from_om om ch.
+Proof.
+  intros Hh ch Hch. destruct (build_hierarchy_structure om h Hh) as [_ Hall].
+  unfold all_channels in Hch. apply in_flat_map in Hch.
+  destruct Hch as ([k grp] & Hgrp & Hch). cbn [snd] in Hch. apply in_map_iff in Hch.
+  destruct Hch as ([n ch'] & Heq & Hin). cbn [snd] in Heq. subst ch'.
+  rewrite Forall_forall in Hall. destruct (Hall (k, grp) Hgrp) as [_ Hg]. cbn [snd] in Hg.
+  destruct (Hg n ch Hin) as (_ & _ & H). exact H.
+Qed.
+
+(* ---- distinct channels have distinct (group, name) pairs, hence distinct paths ---- *)
+
+Lemma NoDup_map_in {A B C} (f : A -> B) (g : A -> C) (l : list A) :
+  NoDup (map f l) ->
+  (forall x y, In x l -> In y l -> g x = g y -> f x = f y) ->
+  NoDup (map g l).
+Proof.
+  induction l as [|a l IH]; intros Hnd Hinj; [constructor|].
+  cbn [map] in *. inversion Hnd as [|x y Hnin Hnd']; subst x y. constructor.
+  - intros Hin. apply in_map_iff in Hin. destruct Hin as (y & Hy & Hyl).
+    apply Hnin. rewrite (Hinj a y (or_introl eq_refl) (or_intror Hyl) (eq_sym Hy)).
+    apply in_map. exact Hyl.
+  - apply IH; [exact Hnd'|]. intros x y Hx Hy. apply Hinj; right; assumption.
+Qed.
+
+Definition chan_key (c : channel) : bytes * bytes := (ch_group c, ch_name c).
+
+Lemma all_channels_keys_nodup : forall (groups : alist group),
+    NoDup (map fst groups) ->
+    Forall (fun kg => NoDup (map fst (g_chans (snd kg))) /\
+                      forall n ch, In (n, ch) (g_chans (snd kg)) -> ch_name ch = n /\ ch_group ch = fst kg)
+           groups ->
+    NoDup (map chan_key (flat_map (fun g => map snd (g_chans (snd g))) groups)).
+Proof.
+  induction groups as [|[k grp] groups IH]; intros Hnd Hall; [constructor|].
+  cbn [map fst] in Hnd. inversion Hnd as [|x y Hnin Hnd']; subst x y.
+  inversion Hall as [|x y [Hg1 Hg2] Hall']; subst x y. cbn [fst snd] in Hg1, Hg2.
+  cbn [flat_map snd]. rewrite map_app. apply NoDup_app_intro.
+  - rewrite map_map. apply (NoDup_map_in fst _ _ Hg1).
+    intros [n1 c1] [n2 c2] H1 H2 Heq. cbn [fst snd] in *.
+    destruct (Hg2 n1 c1 H1) as [<- _]. destruct (Hg2 n2 c2 H2) as [<- _].
+    unfold chan_key in Heq. congruence.
+  - apply IH; assumption.
+  - intros key H1 H2. rewrite map_map in H1. apply in_map_iff in H1.
+    destruct H1 as ([n1 c1] & <- & H1). cbn [snd] in H2.
+    apply in_map_iff in H2. destruct H2 as (c2 & Hkey & H2).
+    apply in_flat_map in H2. destruct H2 as ([k2 grp2] & Hgrp2 & H2). cbn [snd] in H2.
+    apply in_map_iff in H2. destruct H2 as ([n2 c2'] & Heq & H2). cbn [snd] in Heq. subst c2'.
+    rewrite Forall_forall in Hall'. destruct (Hall' (k2, grp2) Hgrp2) as [_ Hg2']. cbn [fst snd] in Hg2'.
+    destruct (Hg2 n1 c1 H1) as [_ Hk1]. destruct (Hg2' n2 c2 H2) as [_ Hk2].
+    unfold chan_key in Hkey. assert (Hk : k2 = k) by congruence.
+    apply Hnin. rewrite <- Hk. apply (in_map fst groups (k2, grp2)). exact Hgrp2.
+Qed.
+
+(* ---- lengths: ch_len is the number of encoded values ---- *)
+
+Lemma segs_total_count p : forall gs segs chunkss pos,
+    segs_at pos segs gs ->
+    segs_encode gs segs chunkss ->
+    zsum (map (seg_total p) gs) = Z.of_nat (length (chan_values p (concat chunkss))).
+Proof.
+  induction gs as [|g gs IH]; intros segs chunkss pos Hat Henc.
+  - inversion Henc; subst. reflexivity.
+  - inversion Henc as [|g' gs' s r cs css Hcs Henc']; subst.
+    inversion Hat as [|pos' s' r' g' gs' Hg Hat']; subst.
+    cbn [map zsum fold_right concat]. rewrite chan_values_app, app_length, Nat2Z.inj_add.
+    fold (zsum (map (seg_total p) gs)). rewrite (IH r css _ Hat' Henc').
+    destruct Hg as (_ & _ & _ & _ & _ & Hcc).
+    rewrite (seg_encodes_count g (fs_data s) cs p Hcs Hcc). reflexivity.
+Qed.
+
+(* the per-object value count of the metadata pass is the number of values the
+   file's raw data encodes for that path *)
+Theorem om_len_counts_values segs w st chunkss p :
+  sm_run segs w = Ok st ->
+  segs_encode (rs_segments st) segs chunkss ->
+  om_len (get_ometa p (rs_om st)) = Z.of_nat (length (chan_values p (concat chunkss))).
+Proof.
+  intros Hrun Henc. destruct (sm_run_trace segs w st Hrun) as (Hat & Hlen & _ & _).
+  rewrite Hlen. exact (segs_total_count p _ _ _ _ Hat Henc).
+Qed.
+
+(* object paths that name a channel are in canonical form: re-serialising the
+   parsed components gives the string back (ObjectPath.from_string then
+   str(); true of every path npTDMS or LabVIEW writes) *)
+Definition om_paths_canonical (om : alist ometa) : Prop :=
+  forall p m g c, In (p, m) om ->
+                  path_from_string p = inr (Some g, Some c) ->
+                  path_to_string (Some g) (Some c) = p.
+
+(* with canonical paths, a channel of the hierarchy IS the metadata entry stored
+   under its own path *)
+Lemma chan_from_om_canonical om ch :
+  om_paths_canonical om -> chan_from_om om ch ->
+  exists m, In (ch_path ch, m) om /\
+            path_from_string (ch_path ch) = inr (Some (ch_group ch), Some (ch_name ch)) /\
+            ch_dtype ch = om_dtype m /\ ch_len ch = om_len m.
+Proof.
+  intros Hcanon (pstr & m & Hin & Hp & Heq).
+  assert (Hpath : ch_path ch = pstr).
+  { rewrite Heq. cbn [chan_of_om ch_path]. exact (Hcanon pstr m _ _ Hin Hp). }
+  exists m. rewrite Hpath. split; [exact Hin|]. split; [exact Hp|].
+  split; rewrite Heq; reflexivity.
+Qed.
+
+Theorem channel_paths_distinct_ser om h :
+  build_hierarchy om = Ok h -> om_paths_canonical om -> channel_paths_distinct h.
+Proof.
+  intros Hh Hcanon. unfold channel_paths_distinct.
+  destruct (build_hierarchy_structure om h Hh) as [Hnd Hall].
+  apply (NoDup_map_in chan_key ch_path).
+  - unfold all_channels. apply all_channels_keys_nodup; [exact Hnd|].
+    eapply Forall_impl; [|exact Hall]. intros kg [H1 H2]. split; [exact H1|].
+    intros n ch Hin. destruct (H2 n ch Hin) as (Hn & Hg & _). split; assumption.
+  - intros x y Hx Hy Heq.
+    destruct (chan_from_om_canonical om x Hcanon (build_hierarchy_channels om h Hh x Hx))
+      as (mx & _ & Hpx & _).
+    destruct (chan_from_om_canonical om y Hcanon (build_hierarchy_channels om h Hh y Hy))
+      as (my & _ & Hpy & _).
+    rewrite Heq, Hpy in Hpx. unfold chan_key. congruence.
+Qed.
+
+Theorem lengths_consistent_ser segs w st h chunkss :
+  sm_run segs w = Ok st ->
+  build_hierarchy (rs_om st) = Ok h ->
+  segs_encode (rs_segments st) segs chunkss ->
+  om_paths_canonical (rs_om st) ->
+  lengths_consistent h (concat chunkss).
+Proof.
+  intros Hrun Hh Henc Hcanon c Hc Hty.
+  destruct (chan_from_om_canonical _ c Hcanon (build_hierarchy_channels _ _ Hh c Hc))
+    as (m & Hin & _ & _ & Hlen).
+  destruct (sm_run_trace segs w st Hrun) as (_ & _ & Hnd & _).
+  pose proof (alookup_in_nodup _ m (rs_om st) Hnd Hin) as Hlk.
+  rewrite Hlen, <- (om_len_counts_values segs w st chunkss (ch_path c) Hrun Henc).
+  unfold get_ometa. rewrite Hlk. reflexivity.
+Qed.
+
+(* R6 with length consistency and distinctness of channel paths discharged *)
+Theorem read_correct segs st h chunkss :
+  wf_file segs ->
+  sm_run segs false = Ok st ->
+  build_hierarchy (rs_om st) = Ok h ->
+  segs_encode (rs_segments st) segs chunkss ->
+  data_paths_are_channels h (concat chunkss) ->
+  no_daqmx_channels h ->
+  om_paths_canonical (rs_om st) ->
+  rd_all (ser_file segs) = Ok (expected_tokens st h (concat chunkss), true).
+Proof.
+  intros Hwf Hrun Hh Henc Hpaths Hnd Hcanon.
+  apply read_correct_given_lengths; try assumption.
+  - exact (channel_paths_distinct_ser _ h Hh Hcanon).
+  - exact (lengths_consistent_ser segs false st h chunkss Hrun Hh Henc Hcanon).
+Qed.
+
+Definition om_paths_canonical_b (om : alist ometa) : bool :=
+  forallb (fun pm : bytes * ometa =>
+             match path_from_string (fst pm) with
+             | inr (Some g, Some c) => bytes_eqb (path_to_string (Some g) (Some c)) (fst pm)
+             | _ => true
+             end) om.
+
+Lemma om_paths_canonical_b_sound om : om_paths_canonical_b om = true -> om_paths_canonical om.
+Proof.
+  unfold om_paths_canonical_b. intros H p m g c Hin Hp. rewrite forallb_forall in H.
+  specialize (H (p, m) Hin). cbn [fst] in H. rewrite Hp in H. apply bytes_eqb_eq. exact H.
+Qed.
+
+(* ---- a concrete instance: every hypothesis holds, and the result computes ---- *)
+
+(* Two segments, one group "g" with a string property, two channels:
+   "a" (int32, 2 values per chunk, one int32 property) and "b" (string, 2 values
+   per chunk, 11 bytes per chunk).  Segment 1 has a metadata block and TWO chunks
+   of raw data; segment 2 has NO metadata block (it repeats the object list of
+   segment 1) and one more chunk. *)
+Section RcExample.
+Import String.
+Local Open Scope string_scope.
+
+Definition rc_file : list fseg :=
+  [ mkFseg 14 4713
+      (Some [ mkEntry (hex "2f") INoData [];
+              mkEntry (hex "2f276727") INoData [mkProp (hex "6e") T_STRING (hex "6869")];
+              mkEntry (hex "2f2767272f276127") (IFull 20 3 1 2 None)
+                      [mkProp (hex "70") 3 (hex "07000000")];
+              mkEntry (hex "2f2767272f276227") (IFull 28 T_STRING 1 2 (Some 11)) [] ])
+      (hex "010000000200000002000000030000006162630300000004000000000000000300000078797a");
+    mkFseg 8 4713 None (hex "05000000060000000100000003000000717273") ].
+
+Definition rc_st : rstate := match sm_run rc_file false with Ok st => st | Err _ => rstate0 end.
+Definition rc_h : hierarchy :=
+  match build_hierarchy (rs_om rc_st) with Ok h => h | Err _ => mkHier [] [] end.
+
+(* per segment, per chunk, per data object: the values *)
+Definition rc_values : list (list (list (list bytes))) :=
+  [ [ [ [hex "01000000"; hex "02000000"]; [hex "6162"; hex "63"] ];
+      [ [hex "03000000"; hex "04000000"]; [[]; hex "78797a"] ] ];
+    [ [ [hex "05000000"; hex "06000000"]; [hex "71"; hex "7273"] ] ] ].
+
+Definition rc_path_a : bytes := hex "2f2767272f276127".
+Definition rc_path_b : bytes := hex "2f2767272f276227".
+
+Definition rc_chunks : list (list chunk) :=
+  map (map (fun vss => [(rc_path_a, CData (nth 0 vss [])); (rc_path_b, CData (nth 1 vss []))]))
+      rc_values.
+
+Example rc_wf : wf_file rc_file.
+Proof. unfold wf_file. vm_compute. reflexivity. Qed.
+
+Example rc_run : sm_run rc_file false = Ok rc_st.
+Proof. vm_compute. reflexivity. Qed.
+
+Example rc_hier : build_hierarchy (rs_om rc_st) = Ok rc_h.
+Proof. vm_compute. reflexivity. Qed.
+
+Definition rc_obj_a : sobj := mkSobj rc_path_a true 2 8 (Some 3) None.          (* int32 x 2 *)
+Definition rc_obj_b : sobj := mkSobj rc_path_b true 2 11 (Some T_STRING) None.  (* string x 2, 11 bytes *)
+
+Lemma rc_seg_contig g data dobjs css chunks :
+  data_objs (sg_objs g) = dobjs ->
+  seg_layout g = Ok LContig ->
+  0 < zsum (map so_dsize dobjs) ->
+  nodupb (map so_path dobjs) = true ->
+  Forall (fun vss => Forall2 (fun o vs => vals_ok (so_nvals o) o vs) dobjs vss) css ->
+  Forall (Forall2 (dsize_ok (toc_endian (sg_toc g))) dobjs) css ->
+  data = enc_chunks (toc_endian (sg_toc g)) dobjs css ->
+  chunks = map (fun vss => chunk_of (combine dobjs vss)) css ->
+  seg_encodes g data chunks.
+Proof.
+  intros <- H1 H2 H3 H4 H5 H6 ->. apply se_contig; try assumption. apply nodupb_sound. exact H3.
+Qed.
+
+Example rc_encodes : segs_encode (rs_segments rc_st) rc_file rc_chunks.
+Proof.
+  assert (Hsegs : rs_segments rc_st = [nth 0 (rs_segments rc_st) (mkSeg 0 0 0 0 false [] [] 0 None);
+                                        nth 1 (rs_segments rc_st) (mkSeg 0 0 0 0 false [] [] 0 None)])
+    by (vm_compute; reflexivity).
+  rewrite Hsegs. clear Hsegs.
+  unfold rc_file, rc_chunks, rc_values. cbn [map].
+  constructor; [|constructor; [|constructor]].
+  - eapply (rc_seg_contig _ _ [rc_obj_a; rc_obj_b] (nth 0 rc_values [])).
+    + vm_compute. reflexivity.
+    + vm_compute. reflexivity.
+    + vm_compute. reflexivity.
+    + vm_compute. reflexivity.
+    + unfold rc_values. cbn [nth]. repeat constructor.
+    + unfold rc_values. cbn [nth]. repeat constructor.
+    + vm_compute. reflexivity.
+    + vm_compute. reflexivity.
+  - eapply (rc_seg_contig _ _ [rc_obj_a; rc_obj_b] (nth 1 rc_values [])).
+    + vm_compute. reflexivity.
+    + vm_compute. reflexivity.
+    + vm_compute. reflexivity.
+    + vm_compute. reflexivity.
+    + unfold rc_values. cbn [nth]. repeat constructor.
+    + unfold rc_values. cbn [nth]. repeat constructor.
+    + vm_compute. reflexivity.
+    + vm_compute. reflexivity.
+Qed.
+
+Example rc_paths : data_paths_are_channels rc_h (List.concat rc_chunks).
+Proof. apply data_paths_are_channels_b_sound. vm_compute. reflexivity. Qed.
+
+Example rc_no_daqmx : no_daqmx_channels rc_h.
+Proof. apply no_daqmx_channels_b_sound. vm_compute. reflexivity. Qed.
+
+Example rc_canonical : om_paths_canonical (rs_om rc_st).
+Proof. apply om_paths_canonical_b_sound. vm_compute. reflexivity. Qed.
+
+(* the theorem applies ... *)
+Example rc_read_correct :
+  rd_all (ser_file rc_file) = Ok (expected_tokens rc_st rc_h (List.concat rc_chunks), true).
+Proof.
+  exact (read_correct rc_file rc_st rc_h rc_chunks rc_wf rc_run rc_hier rc_encodes
+                      rc_paths rc_no_daqmx rc_canonical).
+Qed.
+
+(* ... and both sides compute to the same explicit observation: version, root
+   properties, one group with its property, channel "a" (type 3, length 6, one
+   property, values 1..6 in file order), channel "b" (type 0x20, length 6, the
+   six strings in file order), file status *)
+Example rc_read_tokens :
+  rd_all (ser_file rc_file) =
+  Ok ([TZ 4713; TZ 0; TZ 1; TB (hex "67"); TZ 1; TB (hex "6e"); TZ 3; TB (hex "6869"); TZ 2;
+       TB (hex "61"); TB (hex "67"); TB rc_path_a; TZ 3; TZ 6; TZ 1; TB (hex "70"); TZ 0; TZ 7;
+       TZ 0; TZ 6; TB (hex "01000000"); TB (hex "02000000"); TB (hex "03000000");
+       TB (hex "04000000"); TB (hex "05000000"); TB (hex "06000000");
+       TB (hex "62"); TB (hex "67"); TB rc_path_b; TZ 32; TZ 6; TZ 0;
+       TZ 0; TZ 6; TB (hex "6162"); TB (hex "63"); TB []; TB (hex "78797a"); TB (hex "71");
+       TB (hex "7273");
+       TZ 0; TZ 0], true) /\
+  rd_all (ser_file rc_file) = Ok (expected_tokens rc_st rc_h (List.concat rc_chunks), true).
+Proof. vm_compute. split; reflexivity. Qed.
+
+End RcExample.
